@@ -3,6 +3,8 @@ package checks
 import (
 	"encoding/json"
 	"fmt"
+	"os"
+	"path/filepath"
 	"strings"
 
 	symbol "github.com/acekingke/yaccgo/Symbol"
@@ -265,4 +267,108 @@ func precName(s *symbol.Symbol) string {
 		return "<none>"
 	}
 	return s.Name
+}
+
+// ---- output unit: the opaque texts must reach the generated file unchanged
+
+func init() {
+	Register(&Unit{Prop: "C10", Name: "output",
+		Shards: func(tier string) int { return map[string]int{"quick": 4, "thorough": 16}[tier] },
+		Run: func(c *Ctx) {
+			c.P.Rule = "random spec x random layout, generated in-process as go, go -o and typescript: prologue, %union body, epilogue and every action text must appear in the output file unchanged, each action under the case of its own rule"
+			c.Rapid("output", c.Pick(1200, 30000), func(t *rapid.T) {
+				cs := drawC10(t)
+				// actions without $-substitution so that the text must appear verbatim
+				for i := range cs.Spec.Rules {
+					if strings.Contains(cs.Spec.Rules[i].Action, "$") {
+						cs.Spec.Rules[i].Action = fmt.Sprintf("{ /* action of rule %d */ mark(%d) }", i+1, i+1)
+					}
+				}
+				cs.Text = cs.Spec.Render(spec.RenderOpts{Layout: &spec.SliceLayout{Data: cs.Layout}})
+				if msg := evalC10Output(c, cs); msg != "" {
+					c.Fail(cs, msg)
+					t.Fatalf("%s", msg)
+				}
+			})
+		},
+		Replay: func(c *Ctx, raw json.RawMessage) string {
+			var cs C10Case
+			if m := decodeCase(raw, &cs); m != "" {
+				return m
+			}
+			return evalC10Output(c, cs)
+		},
+	})
+}
+
+func evalC10Output(c *Ctx, cs C10Case) string {
+	c.Eval(1)
+	s := cs.Spec
+	if !s.CFG().AllProductive() {
+		c.Exclude("spec has an unproductive nonterminal")
+		return ""
+	}
+	text := s.Render(spec.RenderOpts{Layout: &spec.SliceLayout{Data: cs.Layout}})
+	dir, err := os.MkdirTemp(c.OutDir, "c10o-")
+	if err != nil {
+		c.Infra("mkdtemp: %v", err)
+		return ""
+	}
+	defer os.RemoveAll(dir)
+	for _, v := range []string{"go", "go-o", "ts"} {
+		out := filepath.Join(dir, "out-"+v)
+		r := yg.Generate(text, v, out)
+		if r.Failed() {
+			c.Class("generation-failed:" + v)
+			continue
+		}
+		b, err := os.ReadFile(out)
+		if err != nil {
+			return fmt.Sprintf("variant %s: generation succeeded but wrote no file\n%s", v, text)
+		}
+		o := string(b)
+		if !strings.Contains(o, s.Prologue) {
+			return fmt.Sprintf("variant %s: the prologue %q does not appear unchanged in the output\n%s", v, s.Prologue, text)
+		}
+		if !s.NoUnion && !strings.Contains(o, s.Union) {
+			return fmt.Sprintf("variant %s: the %%union body %q does not appear unchanged in the output\n%s", v, s.Union, text)
+		}
+		if !strings.HasSuffix(strings.TrimRight(o, " \t\r\n"), strings.TrimRight(s.Epilogue, " \t\r\n")) {
+			return fmt.Sprintf("variant %s: the output does not end with the epilogue %q (it ends with %q)\n%s", v, s.Epilogue, clip(o[max(0, len(o)-120):], 200), text)
+		}
+		// actions under the case of their own rule: split the reduce switch
+		for i, r := range s.Rules {
+			if r.Action == "" {
+				continue
+			}
+			head := fmt.Sprintf("case %d:", i+1)
+			at := -1
+			// the reduce function is the first switch that has both this case and the action text after it
+			for from := 0; ; {
+				k := strings.Index(o[from:], head)
+				if k < 0 {
+					break
+				}
+				k += from
+				end := len(o)
+				if nk := strings.Index(o[k+len(head):], fmt.Sprintf("case %d:", i+2)); nk >= 0 {
+					end = k + len(head) + nk
+				}
+				if strings.Contains(o[k:end], r.Action) {
+					at = k
+					break
+				}
+				from = k + len(head)
+			}
+			if at < 0 {
+				return fmt.Sprintf("variant %s: the action %q of rule %d does not appear unchanged under `case %d:` in the output\n%s", v, r.Action, i+1, i+1, text)
+			}
+		}
+		c.Class("texts-carried:" + v)
+	}
+	c.Nontrivial(Hash(text))
+	if c.WantSample() {
+		c.Sample(map[string]interface{}{"text": text, "variants": []string{"go", "go-o", "ts"}})
+	}
+	return ""
 }
